@@ -299,6 +299,11 @@ func (s *Scheme) runDKG(ctx context.Context, membership *membership, dkgProtocol
 		}
 
 		s.lock.Lock()
+		if ctx.Err() != nil {
+			// KeyGen has already returned and cleaned up, do not leave anything registered behind
+			s.lock.Unlock()
+			return
+		}
 		_, rbcExisted := s.rbcInProgress[string(dkgTopicHash)]
 		s.rbcInProgress[string(dkgTopicHash)] = rbc.Receive
 		s.lock.Unlock()
@@ -474,7 +479,7 @@ func (s *Scheme) Sign(c context.Context, msgHash []byte, topic string) ([]byte, 
 
 		start2 := time.Now()
 
-		signingProtocol, err := s.prepareSigning(membership, partyIDs, topicHash, UIntsToUniversalIDs(signers))
+		signingProtocol, err := s.prepareSigning(ctx, membership, partyIDs, topicHash, UIntsToUniversalIDs(signers))
 		if err != nil {
 			s.Logger.Errorf("Failed initializing signing instance: %v", err)
 			resultChan <- struct {
@@ -597,7 +602,7 @@ func (s *Scheme) initializeSyncForSigning(topic string, topicHash []byte, member
 	return sync, nil
 }
 
-func (s *Scheme) prepareSigning(membership *membership, parties []PartyID, topicHash []byte, signers []UniversalID) (Signer, error) {
+func (s *Scheme) prepareSigning(ctx context.Context, membership *membership, parties []PartyID, topicHash []byte, signers []UniversalID) (Signer, error) {
 	signingProtocol, err := s.initializeThresholdSigning(membership, parties, topicHash, signers)
 	if err != nil {
 		return nil, err
@@ -620,6 +625,12 @@ func (s *Scheme) prepareSigning(membership *membership, parties []PartyID, topic
 	}
 
 	s.lock.Lock()
+
+	if err := ctx.Err(); err != nil {
+		// Sign has already returned and cleaned up, do not leave anything registered behind
+		s.lock.Unlock()
+		return nil, err
+	}
 
 	_, rbcExisted := s.rbcInProgress[string(topicHash)]
 	s.rbcInProgress[string(topicHash)] = rbc.Receive
